@@ -128,6 +128,24 @@ theorem padded_array_not_bounded :
       [3, 1, 0, 2, 0, 3, 0, 9]).isOk = false := by
   refine ⟨by rfl, by rfl⟩
 
+/-- **KF-C14-modifier-underflow**: `packet P { _size_(a): 8, a: 8[+2] }` — a size octet below the modifier makes
+    `a_size_ = a_size_ - 2` wrap in `uint8_t` (1 - 2 = 255): 255 octets that follow are accepted as the array, where the
+    reference rejects a size smaller than its modifier -/
+theorem size_modifier_underflow_accepts :
+    let items : Items := .cons (.chunk [.size "a" 8 2]) (.cons (.array "a" (.scalar 8) (.static 1) .sizeField none) .nil)
+    (viewDecode { e := .little } (.root "P" items) (1 :: List.replicate 255 7)).isOk = true ∧
+    (Pdlv.decodeFull { e := .little, mode := .ideal } (.root "P" items) (1 :: List.replicate 255 7)).isOk = false := by
+  refine ⟨by decide +kernel, by decide +kernel⟩
+
+/-- … and `struct S { a: 8[2], _padding_[4], t: 8 }` (a statically counted array of scalars that fits its padding) is
+    in the class of the struct parser theorem -/
+example :
+    let items : Items := .cons (.array "a" (.scalar 8) (.static 1) (.static 2) (some 4)) (.cons (.chunk [.scalar "t" 8]) .nil)
+    wfBody (.root "S" items) = true ∧ vwfBody (.root "S" items) = true ∧
+    Cxx.decBody { e := .little } (.root "S" items) [1, 2, 0, 0, 9] =
+      .ok (.obj [("a", .arr [.int 1, .int 2]), ("t", .int 9)], []) := by
+  refine ⟨by decide, by decide, by rfl⟩
+
 /-! non-vacuity: `struct S { _count_(a): 8, t: 8, a: 16[], c: 1, _reserved_: 7, o: 8 if c = 1 }` is in the class -/
 example :
     let items : Items := .cons (.chunk [.count "a" 8, .scalar "t" 8])
